@@ -6,33 +6,41 @@
 (* computation type C = CMIN..CMAX (i64 for body B, u64 itself for A).     *)
 (* Arithmetic as compiled with overflow checks on (dev profile, what the   *)
 (* suite and the harness use): `-` and `*` panic on overflow,              *)
-(* saturating_add clamps, `/` truncates towards zero, `as i64` wraps,      *)
-(* `try_into().unwrap()` panics outside the target type.                   *)
+(* saturating_add / saturating_sub clamp, `/` truncates towards zero,      *)
+(* `as i64` wraps, `try_into().unwrap()` panics outside the target type.   *)
 (*                                                                         *)
 (* Body A (Range<u64>):                                                    *)
-(*   n = end - start                          -- panics when end < start   *)
+(*   n = end.saturating_sub(start)             [FIX_REVERSED, 09da878;     *)
+(*                                  before: end - start, panics if < 0]    *)
 (*   chunk = n.saturating_add(peers-1) / peers                             *)
 (*   s = start.saturating_add(index * chunk)                               *)
 (*   e = s.saturating_add(chunk).min(end).max(start)                       *)
 (* Body B (macro: u8 u16 u32 usize i8 i16 i32 i64 isize), in i64:          *)
-(*   n = end as i64 - start as i64                                         *)
-(*   chunk = n.saturating_add(peers-1) / peers   -- negative for reversed  *)
+(*   n = (end as i64).saturating_sub(start as i64).max(0)                  *)
+(*                                 [FIX_REVERSED; before: plain `-`, so a  *)
+(*                                  reversed range had a negative chunk]   *)
+(*   chunk = n.saturating_add(peers-1) / peers                             *)
 (*   s = (start as i64).saturating_add(index * chunk)                      *)
+(*         .min((end as i64).max(start as i64))                            *)
+(*                                 [FIX_CLAMP_START, 663b135; before: no   *)
+(*                                  clamp, s could exceed T::MAX]          *)
 (*   e = s.saturating_add(chunk).min(end as i64).max(start as i64)         *)
 (*   (s.try_into().unwrap(), e.try_into().unwrap())                        *)
 (* The result is the Range s..e (empty when s >= e); <<>> stands for a     *)
 (* panic.                                                                  *)
 (*                                                                         *)
-(* Deviations of the code from C15 that the model reproduces (each has a   *)
-(* `*_finding_*.cfg` that must keep failing, and is excluded from the      *)
-(* main configs by the constants REVERSED / NEARMAX / WRAPPED):            *)
-(*   reversed  lo > hi: body B yields the tail of hi..lo for some replicas *)
-(*             (chunk < 0), body A panics (subtract with overflow);        *)
-(*   nearmax   T narrower than C: lo + index*chunk may exceed TMAX for the *)
-(*             last replicas, try_into panics;                             *)
-(*   wrapped   T wider than C above CMAX (usize above i64::MAX): `as i64`  *)
-(*             wraps to negative values, try_into (or the subtraction)     *)
-(*             panics.                                                     *)
+(* FIX_REVERSED / FIX_CLAMP_START select the arithmetic after / before the *)
+(* two fixes.  The main configurations follow the current code (TRUE,      *)
+(* TRUE) and judge EVERY range, reversed and near-limit ones included.     *)
+(* `mc/RangeSplit_finding_reversed*.cfg` and `..._finding_nearmax.cfg`     *)
+(* keep the old arithmetic as regression documentation: they must still    *)
+(* produce the counterexamples of the fixed findings F1 and F1-nearmax.    *)
+(*                                                                         *)
+(* One deviation of the current code from C15 remains (open finding        *)
+(* F1-usize): T wider than C above CMAX (usize above i64::MAX): `as i64`   *)
+(* wraps to negative values and try_into panics.  The main usize           *)
+(* configuration excludes bounds above CMAX (WRAPPED = FALSE);             *)
+(* `mc/RangeSplit_finding_usize.cfg` must keep failing.                    *)
 (*                                                                         *)
 (* The wrapper enumerates every pair of bounds in BLO..BHI (of at most     *)
 (* MAXELEMS elements, the scaled "2^62") and splits it for every number of *)
@@ -46,9 +54,9 @@ CONSTANTS BODY,               \* "A" | "B"
           BNEG, BHI,          \* bounds enumerated -BNEG..BHI
           MAXELEMS,           \* hi - lo <= MAXELEMS
           MAXPEERS,
-          REVERSED,           \* include lo > hi
-          NEARMAX,            \* judge also (range, peers) whose chunks overshoot TMAX
-          WRAPPED             \* include bounds above CMAX
+          FIX_REVERSED,       \* TRUE: n is clamped at 0 (commit 09da878)
+          FIX_CLAMP_START,    \* TRUE: body B clamps the chunk start to max(end, start) (663b135)
+          WRAPPED             \* include bounds above CMAX (open finding F1-usize)
 
 VARIABLES lo, hi, phase, out   \* out[p][i+1] = sub-range of index i of p peers
 vars == <<lo, hi, phase, out>>
@@ -60,46 +68,50 @@ PANIC == <<>>
 
 InC(v) == CMIN <= v /\ v <= CMAX
 InT(v) == TMIN <= v /\ v <= TMAX
-SatAdd(a, b) == IF a + b > CMAX THEN CMAX ELSE IF a + b < CMIN THEN CMIN ELSE a + b
+Clamp(v) == IF v > CMAX THEN CMAX ELSE IF v < CMIN THEN CMIN ELSE v
+SatAdd(a, b) == Clamp(a + b)
+SatSub(a, b) == Clamp(a - b)
 TruncDiv(a, b) == IF a >= 0 THEN a \div b ELSE -((-a) \div b)
 AsC(v) == IF v > CMAX THEN v - (CMAX - CMIN + 1) ELSE v       \* `as i64`
-CeilDiv(a, b) == (a + b - 1) \div b
+
+(* the rest of body A once n is known *)
+RestA(l, h, n, idx, peers) ==
+  LET chunk == SatAdd(n, peers - 1) \div peers
+      prod  == idx * chunk
+  IN IF ~InC(prod) THEN PANIC
+     ELSE LET s == SatAdd(l, prod)
+              e == SMax(SMin(SatAdd(s, chunk), h), l)
+          IN <<s, e>>
 
 SubA(l, h, idx, peers) ==
-  LET n == h - l
-  IN IF n < 0 THEN PANIC
-     ELSE LET chunk == SatAdd(n, peers - 1) \div peers
-              prod  == idx * chunk
-          IN IF ~InC(prod) THEN PANIC
-             ELSE LET s == SatAdd(l, prod)
-                      e == SMax(SMin(SatAdd(s, chunk), h), l)
-                  IN <<s, e>>
+  IF FIX_REVERSED THEN RestA(l, h, SatSub(h, l), idx, peers)      \* CMIN = 0: clamps at 0
+  ELSE IF h - l < 0 THEN PANIC ELSE RestA(l, h, h - l, idx, peers)
+
+(* the rest of body B once n is known; s0, e0 are the bounds `as i64` *)
+RestB(s0, e0, n, idx, peers) ==
+  LET chunk == TruncDiv(SatAdd(n, peers - 1), peers)
+      prod  == idx * chunk
+  IN IF ~InC(prod) THEN PANIC
+     ELSE LET raw == SatAdd(s0, prod)
+              s   == IF FIX_CLAMP_START THEN SMin(raw, SMax(e0, s0)) ELSE raw
+              e   == SMax(SMin(SatAdd(s, chunk), e0), s0)
+          IN IF InT(s) /\ InT(e) THEN <<s, e>> ELSE PANIC
 
 SubB(l, h, idx, peers) ==
   LET s0 == AsC(l)
       e0 == AsC(h)
-      n  == e0 - s0
-  IN IF ~InC(n) THEN PANIC
-     ELSE LET chunk == TruncDiv(SatAdd(n, peers - 1), peers)
-              prod  == idx * chunk
-          IN IF ~InC(prod) THEN PANIC
-             ELSE LET s == SatAdd(s0, prod)
-                      e == SMax(SMin(SatAdd(s, chunk), e0), s0)
-                  IN IF InT(s) /\ InT(e) THEN <<s, e>> ELSE PANIC
+  IN IF FIX_REVERSED THEN RestB(s0, e0, SMax(SatSub(e0, s0), 0), idx, peers)
+     ELSE IF ~InC(e0 - s0) THEN PANIC ELSE RestB(s0, e0, e0 - s0, idx, peers)
 
 SubRange(l, h, idx, peers) == IF BODY = "A" THEN SubA(l, h, idx, peers) ELSE SubB(l, h, idx, peers)
 RangeOut(l, h, p) == [i \in 1..p |-> SubRange(l, h, i - 1, p)]
 
 ---------------------------------------------------------------------------
-(* input classes of the three deviations *)
-IsReversed(l, h) == l > h
-IsNearMax(l, h, p) == l < h /\ l + (p - 1) * CeilDiv(h - l, p) > TMAX
 IsWrapped(l, h) == l > CMAX \/ h > CMAX
 
 Admitted(l, h) ==
   /\ InT(l) /\ InT(h)
   /\ h - l <= MAXELEMS
-  /\ (REVERSED \/ ~IsReversed(l, h))
   /\ (WRAPPED \/ ~IsWrapped(l, h))
 
 Init == lo = 0 /\ hi = 0 /\ phase = "pick" /\ out = <<>>
@@ -116,8 +128,7 @@ Spec == Init /\ [][Next]_vars
 
 ---------------------------------------------------------------------------
 KindsOf(p) == RangeKindsIv(lo, hi, out[p])
-C15_Range == phase = "done" =>
-  \A p \in 1..MAXPEERS : (NEARMAX \/ ~IsNearMax(lo, hi, p)) => KindsOf(p) = {}
+C15_Range == phase = "done" => \A p \in 1..MAXPEERS : KindsOf(p) = {}
 
 EmitReplay == phase = "done" =>
   PrintT(<<"REPLAY", ToJson([kind |-> "range", body |-> BODY, lo |-> lo, hi |-> hi, exp |-> out])>>)
